@@ -17,7 +17,8 @@ EXPLANATION = (
     "call template ends with the callee context popped); (R5) fresh locals for ordinary procedures, "
     "one persistent block per STATIC procedure; (R6) every VM container is used at the end its role "
     "prescribes; (R7, R8) SHARED variables are found from every subprogram (gate and fallback, shared "
-    "with C13); (R9) the global by-ref queue is not re-entered while values are still queued.")
+    "with C13); (R9) the global by-ref queue is not re-entered while values are still queued; (R10) "
+    "IndexedMap::insert keeps the position of a key that is already present.")
 NOT_DECIDED = ["visibility of values over arbitrary call histories (run-time behaviour)"]
 
 SHIFTING = ("remove", "swap_remove", "insert", "drain", "retain", "truncate", "split_off", "dedup",
@@ -54,6 +55,8 @@ def stored_index_vectors(prog):
 def r1_index_stable(ctx, rule="C03.R1"):
     prog = ctx.prog
     vecs = stored_index_vectors(prog)
+    if "entries" not in vecs and prog.method("IndexedMap", "get_by_index") is not None:
+        vecs["entries"] = ["IndexedMap::get_by_index(index): positional access is part of the map's API"]
     if "memory_blocks" not in vecs or "entries" not in vecs:
         raise CheckError("index-addressed vectors not recognised: %s" % sorted(vecs))
     for field in sorted(vecs):
@@ -82,6 +85,45 @@ def r1_index_stable(ctx, rule="C03.R1"):
     ctx.require(rule, 2)
 
 
+def r10_indexed_map_insert(ctx, rule="C03.R10"):
+    """Variables / memory blocks are IndexedMaps read by position (EnqueueToReturnStack(index),
+    context[index]): inserting a key that is already present must keep its position.  Every push onto
+    `entries` in IndexedMap::insert must therefore sit on the not-found side of a lookup of the key
+    in `keys_to_indices` (a STATIC procedure re-inserts its parameter names on every call)."""
+    prog = ctx.prog
+    ins = prog.method("IndexedMap", "insert")
+    if ins is None:
+        raise CheckError("anchor IndexedMap::insert")
+    body = ins.body
+    pv = mir.Prov(body)
+    pushes = [(b, t) for b, t in body.calls()
+              if mir.callee_path(t).split("::")[-1] in ("push", "insert", "extend", "append")
+              and mir.callee_path(t).startswith("std::vec::Vec") and common.receiver_field(pv, t) == "entries"]
+    if not pushes:
+        raise CheckError("IndexedMap::insert: no append to `entries` found")
+    not_found = set()
+    lookups = 0
+    for sw in mir.enum_switches(prog, body):
+        if sw.adt != "core::option::Option":
+            continue
+        o = mir.strip_all(pv.of_place(sw.place))
+        if o[0] != "call" or "HashMap" not in o[1] or o[1].split("::")[-1] not in ("get", "get_mut", "remove"):
+            continue
+        lookups += 1
+        tgt = sw.arms.get("None", sw.otherwise)
+        if tgt is not None:
+            not_found |= mir.arm_region(body, sw.bb, tgt)
+    for b, t in pushes:
+        ctx.decide(b in not_found, rule, "%s:insert:append-only-when-key-absent" % rule, "%s:%s" % (ins.file, t.get("ln")),
+                   "the append is on the not-found side of the key lookup",
+                   "IndexedMap::insert appends to `entries` %s: a key that is already present gets a second "
+                   "position, and positional readers (by-reference write-back, context[index]) keep reading "
+                   "the stale first entry" % ("without looking the key up first" if not lookups else
+                                              "also when the key lookup succeeded"))
+    ctx.analysed_units(rule, function=ins.path, lookups=lookups, appends=len(pushes))
+    ctx.require(rule, 1)
+
+
 def r2_by_ref_agreement(ctx, rule="C03.R2"):
     prog = ctx.prog
     eng = tf.Engine(prog)
@@ -104,11 +146,10 @@ def r2_by_ref_agreement(ctx, rule="C03.R2"):
         raise CheckError("anchor lint_call_arg")
     brf = [f for f in prog.fns.values() if f.name == "lint_by_ref_arg" and "user_defined_function_linter" in f.id][0]
     sw = [s for s in mir.enum_switches(prog, arg[0].body) if s.adt == ot.EXPR][0]
-    routed = set()
-    for v, tgt in sw.arms.items():
-        region = mir.arm_region(arg[0].body, sw.bb, tgt)
-        if any(mir.callee_of(t) == brf.id for _b, t in mir.region_calls(arg[0].body, region)):
-            routed.add(v)
+    from .c12 import routed_variants
+    routed, mixed = routed_variants(arg[0], sw, brf)
+    if mixed:
+        routed = routed | {"%s(only under a guard)" % m for m in mixed}
     ctx.decide(routed == by_ref, rule, rule + ":checker-routing-agrees", arg[0].loc,
                "the checker types exactly the by-ref variants by equality",
                "the checker routes %s to the by-reference check but the generator passes %s by reference"
@@ -315,3 +356,4 @@ def run(ctx):
     c13.r2_shared_gate(ctx, "C03.R7")
     c13.r6_fallback_keyed_on_same_lookup(ctx, "C03.R8")
     r9_queue_not_reentered(ctx)
+    r10_indexed_map_insert(ctx)
